@@ -122,6 +122,10 @@ pub fn run_scenario(seed: u64, i: u64, tasks: &[Task], tier: &Tier, scratch: &mu
     if case.plan.clock_jump_pct > 0 {
         bump(&mut rep.faults_configured, "benign_clock_jump", 1);
     }
+    if case.stale_out {
+        bump(&mut rep.faults_configured, "benign_stale_files_in_save_dir", 1);
+        bump(&mut rep.faults_fired, "benign_stale_files_in_save_dir", 1);
+    }
 
     let execs = executions_for(&case, rep.problems, tier);
     let mut calm_steps = 0u64;
@@ -425,7 +429,12 @@ pub fn minimise(mut r: Replay, scratch: &mut Scratch, budget_s: u64) -> Replay {
                 c.case.plan.clock_jump_pct = 0;
                 c.case.plan.clock_step_ms = 1;
             }
-            _ => c.case.save_problems = false,
+            _ => {
+                c.case.stale_out = false;
+                if r.violation.class != "I4-saved-bytes" && r.violation.class != "I4-saved-set" {
+                    c.case.save_problems = false;
+                }
+            }
         }
         let _ = try_keep!(c);
     }
@@ -520,5 +529,5 @@ impl Replay {
 
 pub fn fault_kinds() -> Vec<&'static str> {
     let _ = Fault::SpawnErr { errno: 0 };
-    vec!["spawn_err", "spawn_enoent_all", "write_err", "wait_err", "early_exit", "benign_short_write", "benign_eintr", "benign_clock_jump"]
+    vec!["spawn_err", "spawn_enoent_all", "write_err", "wait_err", "early_exit", "benign_short_write", "benign_eintr", "benign_clock_jump", "benign_stale_files_in_save_dir"]
 }
